@@ -44,16 +44,17 @@ def C02_remove_consistent_full : Prop :=
   ∀ (c : RCtx) (toSet : S) (x y : Nat),
     x ∈ targetStates c toSet → y ∈ targetStates c toSet → y ∉ (c.sch.get x).remove
 
-/-- states dropped by the reverse scan of `TargetStates`. -/
-def blockedInScan (c : RCtx) (toSet : S) : S :=
+/-- survivors of the reverse scan of `TargetStates`. -/
+def scanSurvivors (c : RCtx) (toSet : S) : S :=
   let s1 := parseRequire c.sch (uniq (parseAdd c toSet))
-  diff s1 (scanBlocked c.sch s1 s1.reverse [])
+  scanBlocked c.sch s1 s1.reverse []
 
-/-- known-finding signature `C02-readd-after-blocked-blocker`: a state that the
-    reverse scan blocked is back in the final target (re-introduced by the
-    second `parseAdd`). Implemented identically in the Go monitor. -/
-def sigC02Readd (c : RCtx) (toSet : S) : Bool :=
-  (blockedInScan c toSet).any (fun b => (targetStates c toSet).contains b)
+/-- known-finding signature `C02-readd-after-blocked-blocker` for an offending
+    pair (x Removes y): the remover `x` is not a survivor of the reverse scan —
+    it was blocked there and re-introduced by the second `parseAdd`.
+    Implemented identically in the Go monitor (`sigC02Readd`). -/
+def sigC02Readd (c : RCtx) (toSet : S) (x : Nat) : Bool :=
+  !(scanSurvivors c toSet).contains x
 
 /-- witness: `S{Add A} A{Remove B} C{Remove A} D{Remove C}`, active `{B, C}`,
     `Add [S, D]`. Indices: 0 Exception, 1 S, 2 A, 3 B, 4 C, 5 D. -/
@@ -66,7 +67,33 @@ theorem C02_remove_consistent_full_false : ¬ C02_remove_consistent_full := by
   intro h
   exact h c02WitnessCtx (statesToSet .add [3, 4] [1, 5]) 2 3 (by decide) (by decide) (by decide)
 
-/-- the witness is an instance of the recorded signature. -/
-example : sigC02Readd c02WitnessCtx (statesToSet .add [3, 4] [1, 5]) = true := by decide
+/-- the witness is an instance of the recorded signature (A = 2 Removes B = 3). -/
+example : sigC02Readd c02WitnessCtx (statesToSet .add [3, 4] [1, 5]) 2 = true := by decide
+
+/-- C02(b), partial: outside the recorded signature the statement holds — a
+    state that survives the reverse scan and is in the target excludes every
+    state it Removes from the target. Together with the signature this is the
+    full statement: `full ↔ no pair matches the signature`. -/
+theorem C02_remove_consistent_partial (c : RCtx) (toSet : S) (x y : Nat)
+    (hsig : sigC02Readd c toSet x = false)
+    (hy : y ∈ (c.sch.get x).remove) : y ∉ targetStates c toSet := by
+  intro hyt
+  have hx : x ∈ scanSurvivors c toSet := by
+    simpa [sigC02Readd] using hsig
+  simp only [targetStates, mem_sortStates] at hyt
+  unfold targetUnsorted at hyt
+  have h2 := (parseRequire_sublist _ _).subset hyt
+  simp only [List.mem_reverse, mem_uniq, List.mem_filter] at h2
+  have : y ∈ ((scanBlocked c.sch (parseRequire c.sch (uniq (parseAdd c toSet)))
+      (parseRequire c.sch (uniq (parseAdd c toSet))).reverse []).map
+      (fun n => (c.sch.get n).remove)).flatten := by
+    simp only [List.mem_flatten, List.mem_map]
+    exact ⟨_, ⟨x, hx, rfl⟩, hy⟩
+  simp [this] at h2
+
+/-- non-vacuity of the partial theorem: in the witness, D (= 5) survives the scan
+    and Removes C (= 4), which is indeed absent from the target. -/
+example : sigC02Readd c02WitnessCtx (statesToSet .add [3, 4] [1, 5]) 5 = false ∧
+    4 ∈ (c02WitnessCtx.sch.get 5).remove := by decide
 
 end Am
